@@ -116,8 +116,9 @@ def r2_total_order(ctx):
         if b.get("cleanup"):
             continue
         for s in b["s"]:
-            if s["k"] == "assign" and s["p"] == [0] and s["rv"][0] == "agg" and s["rv"][1].get("variant") == "Equal":
-                eq_exit = True
+            if s["k"] == "assign" and s["p"] == [0] and s["rv"][0] == "agg" and s["rv"][1].get("variant") in ("Equal", "Less", "Greater") \
+                    and not s["rv"][2]:
+                eq_exit = True      # a constant ordering on some path: not antisymmetric (Less / Greater) or not separating (Equal)
             if s["k"] == "assign" and s["p"] == [0] and s["rv"][0] == "use" and op_const(s["rv"][1]) is not None:
                 eq_exit = True
     ctx.ob("R2", "Ord-for-Assertion:no-constant-result", not eq_exit and not consts,
